@@ -3,12 +3,13 @@ from _base import serve, fl
 from persim import PersistenceImager
 
 
-def observe(pim, probe_budget=40, rng=None):
+def observe(pim, tick, probe_budget=24):
+    """public attributes + probes: a tiny box kernel (fixed at construction, side tick/16) centred tick/8 inside each corner of a pixel must put
+    all of its mass into exactly that pixel -- this pins every pixel edge of the mesh to within tick/8 without touching the imager's configuration"""
     ps = pim.pixel_size
     rx, ry = pim.resolution
     o = dict(ps=fl(ps), b0=fl(pim.birth_range[0]), b1=fl(pim.birth_range[1]), p0=fl(pim.pers_range[0]), p1=fl(pim.pers_range[1]),
              W=fl(pim.width), H=fl(pim.height), res=[int(rx), int(ry)])
-    pim.kernel_params = {"width": ps, "height": ps}
     cells = [(i, j) for i in range(rx) for j in range(ry)]
     if len(cells) > probe_budget:
         keep = {(0, 0), (rx - 1, ry - 1), (0, ry - 1), (rx - 1, 0)}
@@ -16,10 +17,16 @@ def observe(pim, probe_budget=40, rng=None):
         cells = sorted(keep | {cells[t] for t in idx})
     probes = []
     shape = None
+    d = tick / 8.0
     if cells:
-        dgms = [np.array([[pim.birth_range[0] + (i + 0.5) * ps, pim.pers_range[0] + (j + 0.5) * ps]]) for i, j in cells]
-        imgs = pim.transform(dgms, skew=False)
-        for (i, j), img in zip(cells, imgs):
+        pts, owners = [], []
+        for i, j in cells:
+            x0, x1 = pim.birth_range[0] + i * ps, pim.birth_range[0] + (i + 1) * ps
+            y0, y1 = pim.pers_range[0] + j * ps, pim.pers_range[0] + (j + 1) * ps
+            for (x, y) in ((x0 + d, y0 + d), (x1 - d, y1 - d), (x0 + d, y1 - d), (x1 - d, y0 + d)):
+                pts.append(np.array([[x, y]])); owners.append((i, j))
+        imgs = pim.transform(pts, skew=False)
+        for (i, j), img in zip(owners, imgs):
             img = np.asarray(img)
             shape = list(img.shape)
             nz = [[int(a), int(b), int(round(float(img[a, b]) * 1e9))] for a, b in zip(*np.nonzero(np.abs(img) > 1e-12))]
@@ -38,7 +45,7 @@ def handler(job):
         k = op[0]
         if k == "ctor":
             pim = PersistenceImager(birth_range=(op[1], op[2]), pers_range=(op[3], op[4]), pixel_size=op[5], kernel="uniform",
-                                    kernel_params={"width": op[5], "height": op[5]}, weight="linear_ramp",
+                                    kernel_params={"width": job["tick"] / 16.0, "height": job["tick"] / 16.0}, weight="linear_ramp",
                                     weight_params={"low": 1.0, "high": 1.0, "start": 0.0, "end": 1.0})
         elif k == "birth":
             pim.birth_range = (op[1], op[2])
@@ -49,7 +56,7 @@ def handler(job):
         elif k == "fit":
             d = [np.array(x, dtype=float) for x in op[1]]
             pim.fit(d if len(d) > 1 or op[3] else d[0], skew=bool(op[2]))
-        out.append(observe(pim))
+        out.append(observe(pim, job["tick"]))
     return {"obs": out}
 
 
